@@ -80,3 +80,46 @@ Theorem C03_account_shape : forall cfg ck (vrf_label : bytes -> bool -> N -> opt
   map vr_version h = HistEnd.countdown (N.of_nat (length h)) (length h) /\ HistEnd.sdesc h.
 Proof. exact HistEnd.i3_hist. Qed.
 Print Assumptions C03_account_shape.
+
+(* ------------------------------------------------------------------ the premises are satisfiable *)
+(* a finite VRF table (one user, versions below 4), a transparent 32-byte "hash", three publishes:
+   the table meets the three premises, and the directory then serves a history proof - so the
+   end-to-end theorems above (and those of C01, C02, C04, which share the premises) speak about
+   something *)
+From Coq Require Import Lia.
+From Akd Require Import NodeLabelFacts BitsLabel.
+Definition toyH (x : bytes) : bytes := firstn 32 (x ++ repeat 0 32).
+Definition ex_user : bytes := [1].
+Definition ex_bits (f : bool) (v : N) : list bool := f :: N.testbit v 1 :: N.testbit v 0 :: repeat false 253.
+Definition ex_vrf_label (l : bytes) (f : bool) (v : N) : option nlabel :=
+  if bytes_eqb l ex_user && (v <? 4) then Some (nl_of_bits (ex_bits f v)) else None.
+Definition ex_vrf_proof (l : bytes) (f : bool) (v : N) : option bytes :=
+  match ex_vrf_label l f v with Some nl => Some (lval nl) | None => None end.
+Definition ex_vrf_check (pk pr alpha : bytes) : option bytes := Some pr.
+Definition ex_st := DirRefine.run_publishes (whatsapp toyH) [9] ex_vrf_label dir_new [[(ex_user, [5])]; [(ex_user, [6])]; [(ex_user, [7])]].
+
+Example C03_premises_satisfiable :
+  (forall l f v nl, ex_vrf_label l f v = Some nl -> WF nl /\ canonical nl = true /\ llen nl = 256) /\
+  (forall l f v l' f' v' nl, ex_vrf_label l f v = Some nl -> ex_vrf_label l' f' v' = Some nl -> l = l' /\ f = f' /\ v = v') /\
+  (forall l f v nl pr, ex_vrf_label l f v = Some nl -> ex_vrf_proof l f v = Some pr ->
+     ex_vrf_check [] pr (label_input_hash (whatsapp toyH) l f v) = Some (lval nl)) /\
+  exists p eh, key_history (whatsapp toyH) [9] ex_vrf_label ex_vrf_proof ex_st ex_user HComplete = DOk (p, eh) /\ fst eh = 3.
+Proof.
+  assert (Hlen : forall f v, length (ex_bits f v) = 256%nat) by (intros; cbn [ex_bits length]; rewrite repeat_length; reflexivity).
+  assert (Hsome : forall l f v nl, ex_vrf_label l f v = Some nl -> l = ex_user /\ v < 4 /\ nl = nl_of_bits (ex_bits f v)).
+  { intros l f v nl H. unfold ex_vrf_label in H. destruct (bytes_eqb l ex_user) eqn:E1; [|discriminate].
+    destruct (N.ltb_spec v 4); [|discriminate]. injection H as <-. apply NodeLabelFacts.bytes_eqb_eq in E1. auto. }
+  split; [|split; [|split]].
+  - intros l f v nl H. destruct (Hsome _ _ _ _ H) as (_ & _ & ->).
+    destruct (nl_of_bits_WF (ex_bits f v) ltac:(rewrite Hlen; lia)) as [W C]. split; [exact W|]. split; [exact C|].
+    unfold nl_of_bits. cbn [llen]. rewrite Hlen. reflexivity.
+  - intros l f v l' f' v' nl H H'. destruct (Hsome _ _ _ _ H) as (-> & Hv & ->). destruct (Hsome _ _ _ _ H') as (-> & Hv' & E).
+    split; [reflexivity|].
+    assert (Eb : ex_bits f v = ex_bits f' v').
+    { rewrite <- (bits_of_nl_of_bits (ex_bits f v)) by (rewrite Hlen; lia). rewrite E. apply bits_of_nl_of_bits. rewrite Hlen. lia. }
+    unfold ex_bits in Eb. injection Eb as E0 E1 E2. split; [exact E0|].
+    assert (C : v = 0 \/ v = 1 \/ v = 2 \/ v = 3) by lia. assert (C' : v' = 0 \/ v' = 1 \/ v' = 2 \/ v' = 3) by lia.
+    destruct C as [->|[->|[->| ->]]]; destruct C' as [->|[->|[->| ->]]]; cbn in E1, E2; try reflexivity; discriminate.
+  - intros l f v nl pr H H'. unfold ex_vrf_proof in H'. rewrite H in H'. injection H' as <-. reflexivity.
+  - eexists. eexists. split; [vm_compute; reflexivity | reflexivity].
+Qed.
